@@ -93,6 +93,15 @@ func sameIP(a, b net.IP, za, zb string) bool { return a.Equal(b) && za == zb }
 // ---------------------------------------------------------------------------
 // errors
 
+// dialTimeoutErr: what net.Dialer reports when its deadline passes ("i/o timeout", matches
+// context.DeadlineExceeded, not os.ErrDeadlineExceeded).
+type dialTimeoutErr struct{}
+
+func (dialTimeoutErr) Error() string   { return "i/o timeout" }
+func (dialTimeoutErr) Timeout() bool   { return true }
+func (dialTimeoutErr) Temporary() bool { return true }
+func (dialTimeoutErr) Is(t error) bool { return t == context.DeadlineExceeded }
+
 type timeoutErr struct{}
 
 func (timeoutErr) Error() string   { return "i/o timeout" }
@@ -748,6 +757,17 @@ func (d *Dialer) DialContext(ctx context.Context, network, address string) (net.
 	if err := ctx.Err(); err != nil {
 		return nil, opErr("dial", network, nil, nil, err)
 	}
+	// net.Dialer: the earliest of now+Timeout and Deadline bounds the whole dial; a deadline that
+	// has already passed fails the dial at once with a timeout error
+	dl := d.Deadline
+	if d.Timeout > 0 {
+		if t := vrt.NowQuiet().Add(d.Timeout); dl.IsZero() || t.Before(dl) {
+			dl = t
+		}
+	}
+	if !dl.IsZero() && !vrt.NowQuiet().Before(dl) {
+		return nil, opErr("dial", network, nil, nil, dialTimeoutErr{})
+	}
 	switch network {
 	case "tcp", "tcp4", "tcp6":
 	default:
@@ -776,7 +796,7 @@ func (d *Dialer) DialContext(ctx context.Context, network, address string) (net.
 	}
 	var firstErr error
 	for _, ip := range ordered {
-		c, err := d.dialOne(ctx, ip, zone, port)
+		c, err := d.dialOne(ctx, ip, zone, port, dl)
 		if err == nil {
 			return c, nil
 		}
@@ -787,7 +807,7 @@ func (d *Dialer) DialContext(ctx context.Context, network, address string) (net.
 	return nil, firstErr
 }
 
-func (d *Dialer) dialOne(ctx context.Context, ip net.IP, zone string, port int) (*TCPConn, error) {
+func (d *Dialer) dialOne(ctx context.Context, ip net.IP, zone string, port int, dl time.Time) (*TCPConn, error) {
 	raddr := &net.TCPAddr{IP: ip, Port: port, Zone: zone}
 	ctrlNet := "tcp4"
 	if ip != nil && ip.To4() == nil {
@@ -823,9 +843,12 @@ func (d *Dialer) dialOne(ctx context.Context, ip net.IP, zone string, port int) 
 	}
 	if W.DialHang[target.String()] {
 		vrt.Log("tcp.connect.hang", laddr.String(), target.String(), 0)
-		vrt.WaitDone(ctx)
+		vrt.WaitDoneUntil(ctx, dl)
 		if vrt.Aborting() {
 			return nil, net.ErrClosed
+		}
+		if ctx.Err() == nil {
+			return nil, opErr("dial", "tcp", nil, raddr, dialTimeoutErr{})
 		}
 		return nil, opErr("dial", "tcp", nil, raddr, ctx.Err())
 	}
